@@ -243,8 +243,10 @@ def linear_products(ref:Ref, tid, edits, p, opts, reading='U', strict=True, nove
     # mRNA_end_NF
     drop_open = strict or 'mRNA_end_NF' in t.get('tags', [])
     if coding:
+        # cds_start_NF: the first residue is not known to be the initiator; the tool reports the
+        # Met-removed twin when it happens to be M: permitted (U), never demanded (L)
         res |= orf_products(seq, t['cds'][0], p, secs=secs, sect=opts.get('sect', False),
-            m_removal=not nf_start, drop_open=drop_open, strict=strict)
+            m_removal=(not nf_start) or (not strict), drop_open=drop_open, strict=strict)
     if novel is None:
         novel = (not coding) or opts.get('coding_novel_orf', False)
     if novel:
@@ -405,7 +407,7 @@ def fusion_bounds(ref:Ref, r, records, opts):
             if coding:
                 st = t['cds'][0]
                 nf = 'cds_start_NF' in t.get('tags', [])
-                prods_u |= orf_products(fused, st, p, secs=secs, m_removal=not nf, strict=False)
+                prods_u |= orf_products(fused, st, p, secs=secs, m_removal=True, strict=False)
                 prods_l |= orf_products(fused, st, p, secs=secs, m_removal=not nf,
                     min_end_nt=bp, strict=True, drop_open=True)
             if novel:
